@@ -1,5 +1,75 @@
-"""C21(a): user space only emits sterile frames (pyvc part; filled in below)"""
+"""C21(a) / C11 (sterile clause): what user space emits is a sterile copy of the
+assembled frame - SterilePacket.sterile and append_writer against their
+contracts (contracts/c18_alloc.py)"""
 
 
 def verify(rep):
-    return
+    from contracts import c18_alloc as S
+    from vc.pyvc import api
+    saved = dict(api.REGISTRY)
+    try:
+        S.install_assemble_stub()
+        api.verify(S.s_sterile, rep, quiet=True, replay=native_sterile)
+    finally:
+        api.REGISTRY.clear()
+        api.REGISTRY.update(saved)
+    api.verify(S.s_append_writer, rep, quiet=True, replay=native_writer)
+
+
+def _packets():
+    """real SterilePackets: readers and writers mixed, a writer that was rejected"""
+    from ebpfcat.ebpfcat import SterilePacket
+    from ebpfcat.ethercat import ECCmd
+    out = []
+    p = SterilePacket()
+    p.append(ECCmd.FPRD, b"\x01\x02\x03", 0, 7, 0x1000)
+    p.append_writer(ECCmd.FPWR, b"\x04\x05", 0, 7, 0x1100)
+    p.append(ECCmd.LRD, b"\x00" * 5, 0, 0x10000)
+    p.append_writer(ECCmd.LWR, b"\x09" * 4, 0, 0x10800)
+    out.append(("readers and writers", p))
+    p = SterilePacket()
+    p.append(ECCmd.FPRD, b"\x01" * 700, 0, 7, 0x1000)
+    try:
+        p.append_writer(ECCmd.FPWR, b"\x02" * 900, 0, 7, 0x1100)      # does not fit: rejected
+    except OverflowError:
+        pass
+    p.append(ECCmd.FPRD, b"\x03" * 100, 0, 8, 0x1000)
+    out.append(("a rejected writer, then a reader at its place", p))
+    return out
+
+
+def native_sterile(name, conc, notes):
+    bad = []
+    for what, p in _packets():
+        try:
+            frame, st = p.assemble(5), p.sterile(5)
+        except Exception as e:      # noqa
+            bad.append(f"{what}: {type(e).__name__}: {e}")
+            continue
+        starts, pos = [], 16
+        for d in p.data:
+            starts.append((pos, d[0]))
+            pos += 12 + len(d[1])
+        writers = {s for s, c in starts if c.name in ("FPWR", "APWR", "LWR", "BWR", "LRW", "FPRW", "APRW", "BRW")}
+        diff = [k for k in range(len(frame)) if frame[k] != st[k]]
+        if set(diff) - writers or any(st[k] != 0 for k in writers):
+            bad.append(f"{what}: the sterile copy differs from the frame at {diff}, the write datagrams start at "
+                       f"{sorted(writers)}")
+    return {"inputs": {"packets": [w for w, _ in _packets()]}, "reproduced": bool(bad),
+            "detail": f"real SterilePacket.sterile vs assemble: {bad[:2]}"}
+
+
+def native_writer(name, conc, notes):
+    from ebpfcat.ebpfcat import SterilePacket
+    from ebpfcat.ethercat import ECCmd
+    p = SterilePacket()
+    p.append(ECCmd.FPRD, b"\x01" * 700, 0, 7, 0x1000)
+    before = list(p.on_the_fly)
+    try:
+        p.append_writer(ECCmd.FPWR, b"\x02" * 900, 0, 7, 0x1100)
+        return {"inputs": "700 + 900 bytes", "reproduced": True, "detail": "an oversize writer was accepted"}
+    except OverflowError:
+        pass
+    return {"inputs": "a 900-byte writer appended to a frame that holds 700 bytes", "reproduced": p.on_the_fly != before,
+            "detail": f"real SterilePacket.append_writer rejected the datagram; on_the_fly before {before}, "
+                      f"after {p.on_the_fly}"}
